@@ -287,3 +287,30 @@ def check_who_may_remove_content(cfg, w, rep, tag):
                               loc=e.loc(), config=cfg, rule="%s/who-may-remove-content" % tag)
     if not n:
         rep.ob(cfg, "%s/who-may-remove-content" % tag, "zero-count", "only remove_hash*, RemoveOpts::remove* and clear* can reach a removal of content")
+
+
+
+def options_value(w, body, operand):
+    """Symbolic value of an options argument (`WriteOpts`), looking through crate functions that merely build it — a private
+    `tombstone_opts()`, the public `WriteOpts::new()`, the derived `Default` — and reading `Option::default()` as `None`."""
+    from ..symval import inline_private_calls
+
+    def norm(x):
+        if not isinstance(x, tuple) or not x:
+            return x
+        if x[0] == "call" and x[1] == "<std::option::Option<T> as std::default::Default>::default":
+            return ("agg", "std::option::Option", "None", (), ())
+        if x[0] == "agg":
+            return x[:3] + (tuple((f, norm(v)) for f, v in x[3]),) + tuple(x[4:])
+        return x
+    t = w.sym.of_operand(body, operand)
+    if t and t[0] == "call" and t[1] in w.prog.fns:
+        t = inline_private_calls(w.sym, w.prog, t, public_ok=True)
+    return norm(t)
+
+
+def is_tombstone_options(optt):
+    if optt and optt[0] == "agg" and optt[1] == "put::WriteOpts":
+        sri = dict(optt[3]).get("sri")
+        return sri is not None and sri[0] == "agg" and sri[1].endswith("Option") and sri[2] == "None"
+    return False
